@@ -278,10 +278,12 @@ def make(crates=("chia-protocol",), limit=None, hw=True, part=None, parts=1, out
             L("//@include contracts/handwritten/_utils.part")
         for name in handwritten:
             st = structs[name]
-            L("pub struct %s {" % name)
-            for f, t in st["fields"]:
-                L("    pub %s: %s," % (f, resolve(t)))
-            L("}")
+            if not st.get("tuple"):
+                L("pub struct %s {" % name)
+                for f, t in st["fields"]:
+                    L("    pub %s: %s," % (f, resolve(t)))
+                L("}")
+            # tuple structs are extracted from the source by the part itself
             L("//@include contracts/handwritten/%s.part" % name)
         stats["handwritten"] = handwritten
     for n in sorted(declared_opaque):
